@@ -75,6 +75,26 @@ public:
     }
     return false;
   }
+  // Text whose numbers are grammatical but far outside any regular range: a numeric token of magnitude >= 1e6 (or infinite: a
+  // digit damaged into an exponent sign), or a zero / negative argument in a TruncExponential description.  Such values reach the
+  // distributions' numerics and the vector expansion unvalidated (known findings); the tag narrows those findings to this trigger.
+  static bool outOfRangeNumber(const std::string& s) {
+    size_t i = 0;
+    while (i < s.size()) {
+      if (!(std::isdigit(static_cast<unsigned char>(s[i])) || s[i] == '.')) { ++i; continue; }
+      size_t j = i; while (j < s.size() && (std::isdigit(static_cast<unsigned char>(s[j])) || s[j] == '.' || s[j] == 'e' || s[j] == 'E' || (s[j] == '+' && j > i && (s[j - 1] == 'e' || s[j - 1] == 'E')))) ++j;
+      double x = strtod(s.substr(i, j - i).c_str(), nullptr);
+      if (!(std::abs(x) < 1e6)) return true;
+      i = j;
+    }
+    if (s.find("TruncExponential") != std::string::npos)
+      for (size_t p = s.find('='); p != std::string::npos; p = s.find('=', p + 1)) {
+        size_t e = s.find_first_of(",)\n", p + 1); std::string v = s.substr(p + 1, e == std::string::npos ? std::string::npos : e - p - 1);
+        if (v.empty() || v.find_first_not_of("0123456789.e+-") != std::string::npos) continue;
+        if (strtod(v.c_str(), nullptr) <= 0) return true;
+      }
+    return false;
+  }
   static bool emptyArgHazard(const std::string& desc) {
     for (size_t i = 0; i < desc.size(); ++i) if (desc[i] == '=') {
       size_t j = i + 1; while (j < desc.size() && std::isspace(static_cast<unsigned char>(desc[j]))) ++j;
@@ -400,6 +420,7 @@ public:
       std::string pat2 = "*" + key.substr(key.size() / 2);
       std::string pat3 = key.empty() ? std::string("*") : key.substr(0, 1) + "*" + key.substr(key.size() - 1);
       if (type == 10) { auto hv = lastMap.find(key + suffix); if (hv == lastMap.end() || bpp::TextTools::isEmpty(hv->second)) hv = lastMap.find(key); if (hv != lastMap.end() && rangeHazard(hv->second)) ctx.probe("range-with-empty-bound"); }
+      { auto hv = lastMap.find(key + suffix); if (hv == lastMap.end()) hv = lastMap.find(key); ctx.hazard(hv != lastMap.end() && outOfRangeNumber(hv->second) ? "out-of-range-number" : ""); }
       raised += guard(rd, [&] {
         switch (type) {
           case 0: acc ^= strHash(hexfloat(ApplicationTools::getDoubleParameter(key, lastMap, 1.5, suffix, sOpt, warn))); break;
@@ -459,6 +480,7 @@ public:
     if (cmp) parseArgs = true;
     std::unique_ptr<bpp::DiscreteDistributionInterface> r;
     bpp::BppODiscreteDistributionFormat fmt(verbose);
+    if (outOfRangeNumber(desc)) { ctx.hazard("out-of-range-number"); ctx.probe("distribution-number-out-of-range"); }
     int g = guard("BppODiscreteDistributionFormat::readDiscreteDistribution", [&] { r = fmt.readDiscreteDistribution(desc, parseArgs); });
     if (g == 0 && r) {
       // the object just read is used the way an application would: queried and written again
@@ -469,6 +491,7 @@ public:
         fmt.writeDiscreteDistribution(*r, w, al, wn);
       });
     }
+    ctx.hazard("");
     if (cmp && d->kind == K_DIST && d->pristine()) {
       std::string fam = d->distFamily + ((d->distAllow & 4) ? ":invariant-value-set" : "") + (d->distFree ? ":free-values" : "");
       rt(g == 0 && r, "dist", "raised:" + fam, "readDiscreteDistribution raised on its own writer's output (stream precision " + std::to_string(d->distPrec) + "): " + printable(desc));
